@@ -281,6 +281,19 @@ func (h *Hist) setLoad(gi int, pct int, jitter int) {
 				p.Affinity = &v1.Affinity{NodeAffinity: &v1.NodeAffinity{RequiredDuringSchedulingIgnoredDuringExecution: &v1.NodeSelector{
 					NodeSelectorTerms: []v1.NodeSelectorTerm{{MatchExpressions: []v1.NodeSelectorRequirement{{Key: "grp", Operator: v1.NodeSelectorOpIn, Values: []string{"zz", o.LabelValue}}}}}}}}
 				p.NodeSelector = map[string]string{}
+				// node-selector terms are alternatives: further terms that say nothing about the group (empty, fields only,
+				// another key) change nothing, wherever they stand
+				if h.r.chance(35) {
+					terms := p.Affinity.NodeAffinity.RequiredDuringSchedulingIgnoredDuringExecution.NodeSelectorTerms
+					extra := []v1.NodeSelectorTerm{{}, {MatchFields: []v1.NodeSelectorRequirement{{Key: "metadata.name", Operator: v1.NodeSelectorOpIn, Values: []string{"x"}}}},
+						{MatchExpressions: []v1.NodeSelectorRequirement{{Key: "zone", Operator: v1.NodeSelectorOpExists}}}}[h.r.intn(3)]
+					if h.r.chance(50) {
+						terms = append(terms, extra)
+					} else {
+						terms = append([]v1.NodeSelectorTerm{extra}, terms...)
+					}
+					p.Affinity.NodeAffinity.RequiredDuringSchedulingIgnoredDuringExecution.NodeSelectorTerms = terms
+				}
 			}
 		}
 		// split the request over containers / init containers
